@@ -310,8 +310,9 @@ func (m Manager) GetNodesDeployCapacity(ctx context.Context, nodenames []string,
 			info.Rate /= info.Weight
 			info.Usage /= info.Weight
 		}
-		if info.Capacity == math.MaxInt64 {
-			total = math.MaxInt64
+		// saturating sum
+		if total > math.MaxInt-info.Capacity {
+			total = math.MaxInt
 		} else {
 			total += info.Capacity
 		}
